@@ -86,7 +86,15 @@ pub fn packet_gen(is_error: bool, addr: u16, seed: u64, len: usize) -> String {
     format!("{}:{:04x}:g{}x{}", if is_error { 'E' } else { 'D' }, addr, seed, len)
 }
 
+/// hex bytes, `g<seed>x<len>` (seeded PRNG stream), or several such parts joined by `+`
 pub fn parse_payload(s: &str) -> Option<Vec<u8>> {
+    if s.contains('+') {
+        let mut v = vec![];
+        for part in s.split('+') {
+            v.extend(parse_payload(part)?);
+        }
+        return Some(v);
+    }
     if let Some(rest) = s.strip_prefix('g') {
         let (a, b) = rest.split_once('x')?;
         Some(gen_bytes(a.parse().ok()?, b.parse().ok()?))
